@@ -13,7 +13,7 @@ C02_CLAUSES = {'accepted_against_rule', 'refused_against_rule', 'refusal_changed
                'state_vs_cards'}
 C03_CLAUSES = {'best_is_not_max_cleared', 'not_standard_ranking', 'unplaced_iff_no_clearance',
                'won_without_single_leader', 'tie_for_first_left_standing', 'places_differ_from_countback',
-               'drawn_places_differ_from_countback', 'jumpoff_survivor_not_first', 'jumpoff_member_outside_top',
+               'drawn_participants_do_not_share_first', 'jumpoff_survivor_not_first', 'jumpoff_member_outside_top',
                'jumpoff_member_behind_untied', 'untied_place_changed'}
 C08_CLAUSES = {'log_replay_differs', 'card_round_trip_differs', 'order_dependent_outcome',
                'order_dependent_acceptance'}
